@@ -41,8 +41,7 @@ fn cfg_valid(c: &Cfg) -> bool {
         && c.duration_ms <= 500
         && c.min_calls.map(|m| m >= 1 && m <= 12).unwrap_or(true)
         && c.fail_eighths <= 8
-        && c.wait_ms >= 5
-        && c.wait_ms <= 500
+        && ((c.wait_ms >= 5 && c.wait_ms <= 500) || c.wait_ms == u64::MAX)
         && c.permitted >= 1
         && c.permitted <= 4
         && c.slow_ms.map(|s| s >= 1 && s <= 100).unwrap_or(true)
@@ -60,7 +59,7 @@ macro_rules! build_layer {
         let mut $b = CircuitBreakerLayer::builder()
             .failure_rate_threshold(c.fail_eighths as f64 / 8.0)
             .sliding_window_size(c.size as usize)
-            .wait_duration_in_open(Duration::from_millis(c.wait_ms))
+            .wait_duration_in_open(if c.wait_ms == u64::MAX { Duration::MAX } else { Duration::from_millis(c.wait_ms) })
             .permitted_calls_in_half_open(c.permitted as usize)
             .slow_call_rate_threshold(c.slow_eighths as f64 / 8.0)
             .on_state_transition(|from, to| {
@@ -163,7 +162,7 @@ impl Model {
             0 | 2 => true,
             _ => {
                 let el = now - self.opened_at;
-                let w = c.wait_ms * 1000;
+                let w = c.wait_ms.saturating_mul(1000);
                 if el > w || (el == w && self.has(F_WAIT_TIE)) {
                     self.to(2, now);
                     true
@@ -271,7 +270,8 @@ fn gen_cfg(rng: &mut Rng, small: bool) -> Cfg {
         duration_ms: *rng.pick(&[50u64, 100]),
         min_calls,
         fail_eighths: *rng.pick(&[0u32, 1, 2, 4, 4, 4, 5, 6, 8, 8]),
-        wait_ms: *rng.pick(&[30u64, 100]),
+        // u64::MAX stands for Duration::MAX ("never recover automatically")
+        wait_ms: *rng.pick(&[30u64, 30, 30, 100, 100, 100, 100, u64::MAX]),
         permitted: rng.range(1, 3) as u32,
         slow_ms: if rng.chance(1, 3) { Some(20) } else { None },
         slow_eighths: *rng.pick(&[4u32, 4, 6, 8, 8]),
@@ -647,7 +647,7 @@ pub fn gen3(rng: &mut Rng, half_open_bias: bool) -> Scn3 {
     if let Some(m) = cfg.min_calls {
         cfg.min_calls = Some(m.min(cfg.size));
     }
-    let wait = cfg.wait_ms;
+    let wait = if cfg.wait_ms == u64::MAX { 50 } else { cfg.wait_ms };
     let n = rng.range(3, if half_open_bias { 14 } else { 10 }) as usize;
     let mut callers = vec![];
     let faulty = rng.chance(1, 2);
@@ -772,7 +772,8 @@ const FB_SVC: u8 = 9;
 pub fn run3(s: &Scn3, ctx: &mut RunCtx, prefix: &'static str) -> RunOutput {
     world::reset();
     let last = s.callers.iter().map(|c| c.start_ms).max().unwrap_or(0);
-    let probe_at = last.max(s.force_open_at.unwrap_or(0)).max(s.reset_at.unwrap_or(0)).max(s.force_closed_at.unwrap_or(0)) + 3 * s.cfg.wait_ms + 400 + s.knobs.total_jump();
+    let finite_wait = if s.cfg.wait_ms == u64::MAX { 100 } else { s.cfg.wait_ms };
+    let probe_at = last.max(s.force_open_at.unwrap_or(0)).max(s.reset_at.unwrap_or(0)).max(s.force_closed_at.unwrap_or(0)) + 3 * finite_wait + 400 + s.knobs.total_jump();
     let cfg = s.knobs.cfg(ctx, probe_at + 2000, 0);
     let scn = s.clone();
     let n = s.callers.len();
@@ -860,7 +861,7 @@ pub fn run3(s: &Scn3, ctx: &mut RunCtx, prefix: &'static str) -> RunOutput {
     drop(handle);
     let log = world::with(|w| std::mem::take(&mut w.log));
     let calls = inner_calls(&log);
-    let wait = s.cfg.wait_ms * 1000;
+    let wait = s.cfg.wait_ms.saturating_mul(1000);
     let tr: Vec<(u64, u64, u8, u8)> = notes(&log, "transition").map(|(r, a, b)| (r.seq, r.t_us, a as u8, b as u8)).collect();
     let manual: Vec<(u64, i64)> = notes(&log, "manual").map(|(r, a, _)| (r.seq, a)).collect();
     let manual_done: Vec<(u64, i64)> = notes(&log, "manual_done").map(|(r, a, _)| (r.seq, a)).collect();
@@ -890,7 +891,7 @@ pub fn run3(s: &Scn3, ctx: &mut RunCtx, prefix: &'static str) -> RunOutput {
                 }
             }
             if let (Some(nx), Some(t1)) = (next, t1) {
-                if t1 < *t0 + wait {
+                if t1 < t0.saturating_add(wait) {
                     let by_manual = nx.3 == 0 && in_manual(nx.0, &[2, 3]);
                     if !by_manual {
                         world::violation(
@@ -903,7 +904,7 @@ pub fn run3(s: &Scn3, ctx: &mut RunCtx, prefix: &'static str) -> RunOutput {
             }
             // callers arriving during the episode are answered at once
             for (i, t) in rep.tasks.iter().enumerate().take(n + 1) {
-                if t.first_poll_seq > *s0 && t.first_poll_seq < s1 && t.first_poll_us < *t0 + wait {
+                if t.first_poll_seq > *s0 && t.first_poll_seq < s1 && t.first_poll_us < t0.saturating_add(wait) {
                     let still_open_after_instant = t1.map(|x| x > t.first_poll_us).unwrap_or(true);
                     if !still_open_after_instant {
                         continue;
@@ -989,7 +990,8 @@ pub fn run3(s: &Scn3, ctx: &mut RunCtx, prefix: &'static str) -> RunOutput {
         if t.first_poll_seq > 0 {
             let stuck = crate::logq::in_flight_before(&calls, 0, t.first_poll_seq);
             let reached = calls.iter().any(|c| c.svc == 0 && c.req == n as u32);
-            if stuck == 0 && !reached {
+            let open_for_ever = s.cfg.wait_ms == u64::MAX && tr.iter().filter(|x| x.0 < t.first_poll_seq).last().map(|x| x.3 == 1).unwrap_or(false);
+            if stuck == 0 && !reached && !open_for_ever {
                 let st = tr.iter().filter(|x| x.0 < t.first_poll_seq).last().map(|x| x.3).unwrap_or(0);
                 world::violation(
                     "C09.not_stranded",
